@@ -81,47 +81,51 @@ def run(ctx):
         ctx.notes.append("design-level %s (not a C11 clause): see C12/C13" % res["violated"])
     else:
         ctx.add_mc("Subscription (all txs, 2 plans, 2 buyers)", res)
-    n = ctx.pick(70, 1200)
-    behs = sl.sim(ctx, "Subscription_simpay.cfg", num=n, depth=16, tag="simpay")[:ctx.pick(300, 4000)]
-    modes = [i % 2 for i in range(len(behs))]
+    n = ctx.pick(50, 300)
+    need = {"paid": 15, "zero-cu": 10, "multi-provider": 5, "sub-gone": 1, "capped": 1, "relay:ok": 100}
+    pay = sl.collections.Counter()
+    behs, nrows = [], 0
+    for rnd in range(4):     # top-up rounds until every payout kind is covered
+        new = sl.sim(ctx, "Subscription_simpay.cfg", num=n, depth=16, tag="simpay%d" % rnd, seed=ctx.seed + 7919 * rnd)[:ctx.pick(220, 1200)]
+        if rnd == 0:
+            ctx.sample(new[0])
+        modes = [i % 2 for i in range(len(new))]
+        finding, rows = _check(ctx, new, modes, "all%d" % rnd)
+        if finding is not None:
+            again, _ = _check(ctx, [finding["beh"]], [finding["mode"]], "repro")
+            if again is None:
+                raise vlib.Infra("counter-example not reproduced: %s" % finding["sig"])
+            _report(ctx, again)
+            return
+        st = sl.stats(rows)
+        pay["relay:ok"] += st.get("relay:ok", 0)
+        prev = None
+        for r in rows:
+            if prev is not None and r["ev"] != "reset":
+                cons = [c for c in prev["ct"] if c["at"] < r["h"]]
+                if cons and r["ev"] in sl.ADV + ("payout",):
+                    c = cons[0]
+                    tc = [t for t in prev["tcu"] if t["sblk"] == c["sblk"]]
+                    total = sum(t["cu"] for t in tc)
+                    if total > 0:
+                        pay["paid"] += 1
+                        pay["multi-provider"] += len(tc) > 1
+                        pay["capped"] += c["credit"] // total > 100
+                    else:
+                        pay["zero-cu"] += 1
+                        pay["sub-gone"] += not prev["subn"]["on"]
+            prev = r
+        behs += new
+        nrows += len(rows)
+        miss = {k: (pay[k], v) for k, v in need.items() if pay[k] < v}
+        if not miss:
+            break
     ctx.cov["evaluations"] = len(behs)
-    ctx.sample(behs[0])
-    finding, rows = _check(ctx, behs, modes, "all")
-    if finding is not None:
-        again, _ = _check(ctx, [finding["beh"]], [finding["mode"]], "repro")
-        if again is None:
-            raise vlib.Infra("counter-example not reproduced: %s" % finding["sig"])
-        _report(ctx, again)
-        return
-    # coverage
-    st = sl.stats(rows)
-    pay = {"paid": 0, "zero-cu": 0, "multi-provider": 0, "capped": 0, "sub-gone": 0}
-    prev = None
-    for r in rows:
-        if prev is not None and r["ev"] != "reset":
-            cons = [c for c in prev["ct"] if c["at"] < r["h"]]
-            if cons and r["ev"] in sl.ADV + ("payout",):
-                c = cons[0]
-                tc = [t for t in prev["tcu"] if t["sblk"] == c["sblk"]]
-                total = sum(t["cu"] for t in tc)
-                if total > 0:
-                    pay["paid"] += 1
-                    pay["multi-provider"] += len(tc) > 1
-                    pay["capped"] += c["credit"] // total > 100
-                else:
-                    pay["zero-cu"] += 1
-                    pay["sub-gone"] += not prev["sub"]["on"]
-        prev = r
     ctx.cov["traces_validated_against_impl"] += len(behs)
-    ctx.cov["trace_events"] = len(rows)
-    ctx.cov["stats"] = dict(st)
-    ctx.cov["payouts"] = pay
-    need = {"paid": 15, "zero-cu": 10, "multi-provider": 5}
-    miss = {k: (pay[k], v) for k, v in need.items() if pay[k] < v}
-    if st.get("relay:ok", 0) < 100:
-        miss["relay:ok"] = (st.get("relay:ok", 0), 100)
+    ctx.cov["trace_events"] = nrows
+    ctx.cov["payouts"] = dict(pay)
     if miss:
-        raise vlib.Infra("vacuous coverage (have, need): %s" % miss)
+        raise vlib.Infra("vacuous coverage after 4 rounds (have, need): %s" % miss)
     ctx.cov["distinct_nontrivial"] = len({vlib.json.dumps(b) for b in behs
                                           if any(s["a"] == "relay" for s in b) and any(s["a"] == "month" for s in b)
                                           and any(s["a"] == "stale" for s in b)})
